@@ -14,6 +14,7 @@ import (
 	"bytes"
 	"fmt"
 	"sync"
+	"sync/atomic"
 	"time"
 
 	"github.com/spikeekips/mitum/base"
@@ -24,6 +25,7 @@ import (
 	"github.com/spikeekips/mitum/util/encoder"
 	jsonenc "github.com/spikeekips/mitum/util/encoder/json"
 	"github.com/spikeekips/mitum/util/fixedtree"
+	"github.com/spikeekips/mitum/util/hint"
 	"github.com/spikeekips/mitum/util/valuehash"
 	"verifharness/vh"
 )
@@ -122,6 +124,39 @@ type World struct {
 	prevMapHash  util.Hash
 }
 
+// HookStateValue is a state value whose decoding calls DecodeHook: an injectable yield point inside
+// LeveldbPermanent.State, between the storage read and the update of the state cache.
+var HookStateValueHint = hint.MustNewHint("verif-hook-state-value-v0.0.1")
+
+type HookStateValue struct {
+	hint.BaseHinter
+	S string `json:"s"`
+}
+
+func NewHookStateValue(s string) HookStateValue {
+	return HookStateValue{BaseHinter: hint.NewBaseHinter(HookStateValueHint), S: s}
+}
+
+func (v HookStateValue) HashBytes() []byte    { return []byte(v.S) }
+func (v HookStateValue) IsValid([]byte) error { return nil }
+
+// DecodeHook, when set, is called (once per decode) after a HookStateValue was decoded.
+var DecodeHook atomic.Pointer[func()]
+
+func (v *HookStateValue) DecodeJSON(b []byte, _ encoder.Encoder) error {
+	var u struct {
+		S string `json:"s"`
+	}
+	if err := util.UnmarshalJSON(b, &u); err != nil {
+		return err
+	}
+	v.S = u.S
+	if f := DecodeHook.Load(); f != nil {
+		(*f)()
+	}
+	return nil
+}
+
 func NewEncoders() (*encoder.Encoders, encoder.Encoder) {
 	enc := jsonenc.NewEncoder()
 	encs := encoder.NewEncoders(enc, enc)
@@ -129,6 +164,9 @@ func NewEncoders() (*encoder.Encoders, encoder.Encoder) {
 		panic(err)
 	}
 	if err := encs.AddDetail(encoder.DecodeDetail{Hint: base.DummyStateValueHint, Instance: base.DummyStateValue{}}); err != nil {
+		panic(err)
+	}
+	if err := encs.AddDetail(encoder.DecodeDetail{Hint: HookStateValueHint, Instance: HookStateValue{}}); err != nil {
 		panic(err)
 	}
 	return encs, enc
@@ -223,6 +261,8 @@ type BlockShape struct {
 	Pol    bool
 	PolOps []int
 	Known  []int
+	// HookKey: ordinary key (>= 2) whose state value is a HookStateValue; 0 = none
+	HookKey int
 }
 
 func (w *World) NewBlock(s BlockShape) *Blk {
@@ -265,7 +305,10 @@ func (w *World) NewBlock(s BlockShape) *Blk {
 		addIn(s.PolOps)
 	}
 	for i, k := range s.Keys {
-		v := base.NewDummyStateValue(fmt.Sprintf("v-%d-%d-%x", s.H, k, w.r.Bytes(6)))
+		var v base.StateValue = base.NewDummyStateValue(fmt.Sprintf("v-%d-%d-%x", s.H, k, w.r.Bytes(6)))
+		if s.HookKey == k && k >= 2 {
+			v = NewHookStateValue(fmt.Sprintf("v-%d-%d-%x", s.H, k, w.r.Bytes(6)))
+		}
 		st, id := w.newState(s.H, w.KeyName(k), v, w.hash(), s.KeyOps[i])
 		b.states = append(b.states, st)
 		b.States = append(b.States, StateEnt{Key: k, ID: id})
